@@ -608,7 +608,8 @@ Definition query_body (qi : nat) (q : query) (cur : pv) (cv : option N) : M (lis
               | S pi =>
                   match nth_error q pi with
                   | Some (QAllIndices _) =>
-                      st <- with_frame (FValue cur) (eval_filter_cnf cnf) ;;
+                      (* fix ec31769 in /repo: the clauses are recorded under a Filter record, as for lists and structs *)
+                      st <- node (with_frame (FValue cur) (eval_filter_cnf cnf)) KFilter ;;
                       match st with
                       | PASS => rq (S qi) q cur cv
                       | _ => ret []
